@@ -184,7 +184,19 @@ def _check_calls(prog: Program, res: Result):
     for n in ast.walk(fi.node):
         if isinstance(n, ast.If) and any(second is x for b_ in n.body for x in ast.walk(b_)):
             guard = n
-    okg = guard is None or ast.unparse(guard.test).replace(" ", "") in ("len(no_go_boundaries)>0", "no_go_boundaries", "len(no_go_boundaries)!=0", "len(no_go_boundaries)>=1")
+    okg = guard is None
+    if guard is not None:
+        from ..paths import Engine, Hooks, State, cmp_is
+        from ..sym import Rat
+        from .. import sym as _sym
+
+        e_ = Engine(prog, fi, Hooks())
+        s_ = State()
+        s_.env["no_go_boundaries"] = Rat.atom("no_go_boundaries")
+        c_ = e_.cond(guard.test, s_)
+        L_ = _sym.call("len", [Rat.atom("no_go_boundaries")])
+        # len(z) > 0 | len(z) >= 1 | len(z) != 0 | z   (the cut is in the branch taken when there ARE zones)
+        okg = cmp_is(c_, L_, "+") or cmp_is(c_, L_ - Rat.const(1), "+0") or cmp_is(c_, L_, "+-") or ast.unparse(guard.test) == "no_go_boundaries"
     res.ob("R04.2", f"the no-go cut is skipped only when there are no no-go zones ({ast.unparse(guard.test) if guard else 'unconditional'})", okg, prog.loc(fi, second))
     if not okg:
         res.violation("R04.2", f"nogo-guard|{ast.unparse(guard.test)}", prog.loc(fi, second), q, f"the no-go cut-out is applied only if '{ast.unparse(guard.test)}'")
